@@ -3,7 +3,7 @@ CONSTANTS
   IgnorePatterns <- DataIgnorePatterns
   EaExts <- DataEaExts
   SkipUnservable = TRUE
-  SortedEnum = TRUE
+  SortedLinks = TRUE
   DotRuleAll = TRUE
   Suites <- SuitesQuick
 INVARIANT Exact
